@@ -719,6 +719,21 @@ def c_int(ex, st, args, kwargs, cx):
         yield st, v
     elif t == "bool":
         yield st, o.int_(z3.If(o.b(v), 1, 0))
+    elif t == "float":
+        # int(x): truncation towards zero; OverflowError for an infinity, ValueError for NaN
+        f = o.f(v)
+        a = st.clone()
+        a.assume(z3.Not(z3.Or(z3.fpIsNaN(f), z3.fpIsInf(f))))
+        if o.feasible(a):
+            yield a, o.int_(z3.ToInt(z3.fpToReal(z3.fpRoundToIntegral(z3.RTZ(), f))))
+        b = st.clone()
+        b.assume(z3.fpIsInf(f))
+        if o.feasible(b):
+            yield from ex.raise_new(b, "OverflowError")
+        c = st.clone()
+        c.assume(z3.fpIsNaN(f))
+        if o.feasible(c):
+            yield from ex.raise_new(c, "ValueError")
     elif t == "str":
         s = o.s(v)
         ok = w.fun("int_ok", "str", "bool")(s)
@@ -742,6 +757,19 @@ def c_float(ex, st, args, kwargs, cx):
     t = o.tyof(st, v)
     if t == "float":
         yield st, v
+    elif t == "bool":
+        yield st, o.float_(z3.If(o.b(v), z3.FPVal(1.0, FP64), z3.FPVal(0.0, FP64)))
+    elif t == "int":
+        # float(i): nearest double (round half to even); OverflowError when that is beyond the largest double
+        r = z3.fpRealToFP(z3.RNE(), z3.ToReal(o.i(v)), FP64)
+        a = st.clone()
+        a.assume(z3.Not(z3.fpIsInf(r)))
+        if o.feasible(a):
+            yield a, o.float_(r)
+        b = st.clone()
+        b.assume(z3.fpIsInf(r))
+        if o.feasible(b):
+            yield from ex.raise_new(b, "OverflowError")
     elif t == "str":
         s = o.s(v)
         ok = w.fun("float_ok", "str", "bool")(s)
@@ -759,8 +787,30 @@ def c_float(ex, st, args, kwargs, cx):
 
 trusted("int()/float()/str() of numbers", "int(s) raises ValueError exactly when int_ok(s) fails, else int_parse(s); int_parse(int_text(i)) == i and "
         "int_ok(int_text(i)); likewise float_parse(float_text(x)) == x (repr round trip, NaN up to being NaN is NOT claimed) and float_ok(float_text(x))")
-BUILTIN_CTORS["int"] = c_int
-BUILTIN_CTORS["float"] = c_float
+def _by_type(fn):
+    """int(x) / float(x) on a value whose type the path condition does not fix: one branch per feasible type,
+    TypeError for anything that is not a number or a string"""
+    def g(ex, st, args, kwargs, cx):
+        o, V = ex.o, ex.w.V
+        if len(args) != 1 or kwargs or args[0].e is None or o.tyof(st, args[0]) is not None:
+            yield from fn(ex, st, args, kwargs, cx)
+            return
+        v = args[0].e
+        rest = st
+        for ty, test in (("bool", V.is_bool(v)), ("int", V.is_int(v)), ("float", V.is_flt(v)), ("str", V.is_str(v))):
+            br = rest.clone()
+            br.assume(test)
+            if o.feasible(br):
+                yield from fn(ex, br, [SV(v, ty)], kwargs, cx)
+            rest = rest.clone()
+            rest.assume(z3.Not(test))
+        if o.feasible(rest):
+            yield from ex.raise_new(rest, "TypeError")
+    return g
+
+
+BUILTIN_CTORS["int"] = _by_type(c_int)
+BUILTIN_CTORS["float"] = _by_type(c_float)
 
 
 # ====================================================================== cryptography (AES-CBC, PKCS7)
